@@ -36,12 +36,23 @@ VARIABLES
   cap,     \* current resource cap (PASHA), maxt otherwise
   thr,     \* RUSH: [level -> best candidate metric or NoVal]
   nstart,  \* trials started
-  flags
+  flags,
+  \* ---- searcher-data layer (C14)
+  reps,    \* monitor: set of <<t, r, v>>  every (non-repeated) report
+  reached, \* monitor: set of <<t, r>>     reports at which the trial reached a milestone
+  latest,  \* monitor: [Trials -> last level reported in a way that counts (not a re-report after a restart)]
+  pobs,    \* searcher state: set of <<t, r>> with an observation   (program / bound from the log)
+  ppend,   \* searcher state: set of <<t, r>> pending               (program / bound from the log)
+  lur,     \* program: largest_update_resource per trial (0 = none)
+  fresh    \* the searcher state variables are up to date with the other variables
 
-vars == <<cf, st, lastr, rung, br, ms, rf, cap, thr, nstart, flags>>
+sdV  == <<reps, reached, latest>>
+ssV  == <<pobs, ppend, lur, fresh>>
+vars == <<cf, st, lastr, rung, br, ms, rf, cap, thr, nstart, flags, sdV, ssV>>
 
 ----------------------------------------------------------------------------
 Flag(c, f)   == IF c THEN {f} ELSE {}
+NoFlag(f)    == f \notin flags
 SetOfSeq(s)  == {s[i] : i \in 1..Len(s)}
 LevelSet     == SetOfSeq(cf.levels)
 NumSys       == IF cf.perbr THEN cf.nbr ELSE 1
@@ -122,7 +133,7 @@ EvStart(t, b, mval) ==
   /\ st' = [st EXCEPT ![t] = "running"] /\ lastr' = [lastr EXCEPT ![t] = 0]
   /\ br' = [br EXCEPT ![t] = b] /\ ms' = [ms EXCEPT ![t] = FirstMilestone(b)] /\ rf' = [rf EXCEPT ![t] = 0]
   /\ nstart' = nstart + 1
-  /\ UNCHANGED <<cf, rung, cap, thr>>
+  /\ UNCHANGED <<cf, rung, cap, thr, sdV>>
 
 \* suggest() resumed trial t from rung level `from`, to run until `to`; b = bracket sampled
 EvPromote(t, from, to, b, mval) ==
@@ -145,7 +156,7 @@ EvPromote(t, from, to, b, mval) ==
   /\ st' = [st EXCEPT ![t] = "running"]
   /\ lastr' = [lastr EXCEPT ![t] = IF cf.ckpt THEN from ELSE 0]
   /\ br' = [br EXCEPT ![t] = b] /\ ms' = [ms EXCEPT ![t] = to] /\ rf' = [rf EXCEPT ![t] = from]
-  /\ UNCHANGED <<cf, cap, thr, nstart>>
+  /\ UNCHANGED <<cf, cap, thr, nstart, sdV>>
 
 \* expected decision of a stopping-type report: set of allowed decisions
 StopAllowed(t, r, v, S1) ==     \* S1 = rung contents including the new entry (or {} if no rung is entered)
@@ -188,32 +199,58 @@ EvReport(t, r, v, c, d, capNow) ==
   /\ cap' = capNow
   /\ lastr' = [lastr EXCEPT ![t] = r]
   /\ st' = [st EXCEPT ![t] = CASE d = "STOP" -> "stopped" [] d = "PAUSE" -> "paused" [] OTHER -> "running"]
+  \* searcher-data bookkeeping in the property's vocabulary
+  /\ reps' = IF cf.sd = "none" THEN reps ELSE reps \cup {<<t, r, v>>}
+  /\ reached' = IF cf.sd = "none" THEN reached ELSE IF (IsPromotion /\ r = ms[t]) \/ (~IsPromotion /\ (r >= cf.maxt \/ (r \in OwnLevels(br[t]) /\ ~InRung(t, s, r))))
+                   THEN reached \cup {<<t, r>>} ELSE reached
+  /\ latest' = IF cf.sd = "none" \/ (IsPromotion /\ rf[t] > 0 /\ r <= rf[t]) THEN latest ELSE [latest EXCEPT ![t] = r]
   /\ UNCHANGED <<cf, br, ms, rf, nstart>>
 
 \* on_trial_error(t): the run crashed
 EvError(t) ==
   /\ st[t] = "running"
   /\ st' = [st EXCEPT ![t] = "failed"]
-  /\ UNCHANGED <<cf, lastr, rung, br, ms, rf, cap, thr, nstart, flags>>
+  /\ UNCHANGED <<cf, lastr, rung, br, ms, rf, cap, thr, nstart, flags, sdV>>
 
 \* on_trial_complete(t): the script ended on its own (after its last report)
 EvComplete(t) ==
   /\ st[t] = "running" /\ lastr[t] >= 1
   /\ st' = [st EXCEPT ![t] = "stopped"]
-  /\ UNCHANGED <<cf, lastr, rung, br, ms, rf, cap, thr, nstart, flags>>
+  /\ UNCHANGED <<cf, lastr, rung, br, ms, rf, cap, thr, nstart, flags, sdV>>
 
 \* rung sizes read back from the scheduler: sz = [<<s, lv>> -> Nat] as a sequence of <<s, lv, n>>
 EvRungSizes(sz) ==
   /\ flags' = flags \cup Flag(\E i \in 1..Len(sz) : <<sz[i][1], sz[i][2]>> \in Keys
                                    /\ Cardinality(rung[<<sz[i][1], sz[i][2]>>]) # sz[i][3], "rung_contents")   \* C03: enters a rung once
-  /\ UNCHANGED <<cf, st, lastr, rung, br, ms, rf, cap, thr, nstart>>
+  /\ UNCHANGED <<cf, st, lastr, rung, br, ms, rf, cap, thr, nstart, sdV>>
 
 \* the scheduler raised an exception on a legal call
 EvCrash ==
   /\ flags' = flags \cup {"scheduler_raised"}
-  /\ UNCHANGED <<cf, st, lastr, rung, br, ms, rf, cap, thr, nstart>>
+  /\ UNCHANGED <<cf, st, lastr, rung, br, ms, rf, cap, thr, nstart, sdV>>
 
-NoFlag(f) == f \notin flags
+\* the searcher's data set read back after a call: obs = Seq of <<t, r, v>> (v in the reported convention),
+\* pend = Seq of <<t, r>>
+EvSearcherState(obs, pend) ==
+  /\ flags' = flags
+       \cup Flag(\E i, j \in 1..Len(obs) : i # j /\ obs[i][1] = obs[j][1] /\ obs[i][2] = obs[j][2], "obs_duplicate")   \* C14
+       \cup Flag(\E i \in 1..Len(obs) : <<obs[i][1], obs[i][2], obs[i][3]>> \notin reps, "obs_value")              \* C14
+       \cup Flag(\E i, j \in 1..Len(pend) : i # j /\ pend[i] = pend[j], "pending_duplicate")
+  /\ pobs' = {<<obs[i][1], obs[i][2]>> : i \in 1..Len(obs)}
+  /\ ppend' = {<<pend[i][1], pend[i][2]>> : i \in 1..Len(pend)}
+  /\ fresh' = TRUE
+  /\ UNCHANGED <<cf, st, lastr, rung, br, ms, rf, cap, thr, nstart, sdV, lur>>
+
+\* C14 as state predicates on the searcher state (evaluated when it is up to date)
+ExpectedObs ==
+  CASE cf.sd = "all"   -> {<<x[1], x[2]>> : x \in reps}
+    [] cf.sd = "rungs" -> {<<x[1], x[2]>> : x \in {y \in reps : y[2] \in LevelSet \/ y[2] = cf.maxt}}
+    [] OTHER           -> reached \cup {<<t, latest[t]>> : t \in {u \in Trials : latest[u] > 0}}
+ObsLevelsMatchPolicy == (fresh /\ cf.sd # "none") => pobs = ExpectedObs
+PendingOnlyLive      == (fresh /\ cf.sd # "none") => \A p \in ppend : st[p[1]] = "running"
+PendingNotObserved   == (fresh /\ cf.sd # "none") => ppend \cap pobs = {}
+ObsOnceAndTrue       == NoFlag("obs_duplicate") /\ NoFlag("obs_value") /\ NoFlag("pending_duplicate")
+
 NeverRaises == NoFlag("scheduler_raised")
 \* C03
 EnterRungOnce        == NoFlag("rung_contents")
@@ -242,6 +279,8 @@ InitCommon(c) ==
   /\ cap = c.cap0
   /\ thr = [lv \in SetOfSeq(c.levels) |-> NoVal]
   /\ nstart = 0 /\ flags = {}
+  /\ reps = {} /\ reached = {} /\ latest = [t \in Trials |-> 0]
+  /\ pobs = {} /\ ppend = {} /\ lur = [t \in Trials |-> 0] /\ fresh = TRUE
 
 \* Rung.quantile + the comparison of StoppingRungSystem._task_continues
 CodeContinues(S1, lv, v) ==
@@ -282,24 +321,59 @@ CodeSuggest(b) ==     \* <<"promote", e, from>> or <<"new">>
   IN  IF Ls = {} THEN <<"new">>
       ELSE LET top == CHOOSE lv \in Ls : \A x \in Ls : x <= lv IN <<"promote", top>>
 
+\* HyperbandScheduler._on_config_suggest / _promote_trial: pending evaluations registered with the searcher
+PendOnStart(t, first) == IF cf.sd = "rungs" THEN {<<t, first>>} ELSE IF cf.myopic THEN {<<t, 1>>} ELSE {<<t, x>> : x \in 1..first}
+PendOnPromote(t, from, to) == IF cf.sd = "rungs" THEN {<<t, to>>} ELSE IF cf.myopic THEN {<<t, from + 1>>}
+                              ELSE {<<t, x>> : x \in (from + 1)..to}
 A_Suggest(b) ==
   LET cs == CodeSuggest(b) IN
   IF IsPromotion /\ cs[1] = "promote"
     THEN \E e \in CodePromotable(SysOf(b), cs[2]) :
-           EvPromote(e.t, cs[2], NextLevel(cs[2]), b, IF cf.mra THEN NextLevel(cs[2]) ELSE 0)
-    ELSE nstart < NT /\ EvStart(nstart, b, IF IsPromotion /\ cf.mra THEN FirstMilestone(b) ELSE 0)
+           /\ EvPromote(e.t, cs[2], NextLevel(cs[2]), b, IF cf.mra THEN NextLevel(cs[2]) ELSE 0)
+           /\ ppend' = ppend \cup PendOnPromote(e.t, cs[2], NextLevel(cs[2])) /\ UNCHANGED <<pobs, lur, fresh>>
+    ELSE /\ nstart < NT /\ EvStart(nstart, b, IF IsPromotion /\ cf.mra THEN FirstMilestone(b) ELSE 0)
+         /\ ppend' = ppend \cup PendOnStart(nstart, FirstMilestone(b)) /\ UNCHANGED <<pobs, lur, fresh>>
 
 \* PASHA's decision to grow the cap is float-percentile based: abstracted to "stays or moves up one rung"
 CapChoices == IF cf.type # "pasha" THEN {cf.maxt}
               ELSE {cap} \cup (IF cap >= cf.maxt THEN {} ELSE {IF cap \in LevelSet THEN NextLevel(cap) ELSE cf.maxt})
 
+\* HyperbandScheduler.on_trial_result -> _update_searcher -> searcher.on_trial_result(update) (label_trial drops the
+\* pending entry of the labelled level), remove_case for "rungs_and_last"
 A_Report(t, v, c) ==
-  LET r == NextReportLevel(t) IN
-  \E cn \in CapChoices :
-    EvReport(t, r, v, c, IF IsPromotion THEN CodePromoDecision(t, r) ELSE CodeStopDecision(t, r, v), cn)
+  LET r      == NextReportLevel(t)
+      d      == IF IsPromotion THEN CodePromoDecision(t, r) ELSE CodeStopDecision(t, r, v)
+      cont   == d = "CONTINUE"
+      ignore == IsPromotion /\ rf[t] > 0 /\ r <= rf[t]
+      msr    == IF IsPromotion THEN r >= ms[t]
+                ELSE (r >= cf.maxt \/ (r \in OwnLevels(br[t]) /\ ~InRung(t, SysOf(br[t]), r)))        \* milestone_reached
+      nextm  == IF r >= cf.maxt THEN 0                                                                  \* next_milestone (0 = None)
+                ELSE IF IsPromotion THEN (IF msr /\ r \in LevelSet THEN NextLevel(r) ELSE 0)
+                ELSE (IF msr THEN (IF r \in LevelSet THEN NextLevel(r) ELSE cf.maxt)
+                      ELSE LET up == {x \in OwnLevels(br[t]) : x > r} IN IF up = {} THEN cf.maxt ELSE CHOOSE x \in up : \A y \in up : x <= y)
+      upd0   == IF cf.sd = "rungs" THEN (r \in LevelSet \/ r = cf.maxt) ELSE TRUE
+      upd    == upd0 /\ ~(lur[t] = r)
+      newp   == IF cf.sd = "rungs"
+                  THEN (IF upd0 /\ cont /\ msr /\ nextm # 0 THEN {<<t, nextm>>} ELSE {})
+                  ELSE IF ~cont THEN {}
+                  ELSE IF cf.myopic \/ nextm = 0 THEN {<<t, r + 1>>}
+                  ELSE IF msr THEN {<<t, x>> : x \in (r + 1)..nextm} ELSE {}
+      \* rungs_and_last: the previous result of this trial is removed unless it fell on a milestone
+      drop   == IF cf.sd = "rungs_and_last" /\ latest[t] > 0 /\ <<t, latest[t]>> \notin reached THEN {<<t, latest[t]>>} ELSE {}
+  IN
+  /\ \E cn \in CapChoices : EvReport(t, r, v, c, d, cn)
+  /\ IF cf.sd = "none" \/ ignore
+       THEN UNCHANGED <<pobs, ppend, lur>>
+       ELSE /\ pobs' = IF upd THEN ((pobs \ drop) \cup {<<t, r>>}) ELSE (IF upd0 THEN pobs \ (drop \ {<<t, r>>}) ELSE pobs)
+            /\ ppend' = (IF upd THEN ppend \ {<<t, r>>} ELSE ppend) \cup newp
+            /\ lur' = IF upd0 THEN [lur EXCEPT ![t] = r] ELSE lur
+  /\ fresh' = TRUE
+
+\* on_trial_error -> evaluation_failed -> cleanup_pending
+A_Error(t) == EvError(t) /\ ppend' = {p \in ppend : p[1] # t} /\ UNCHANGED <<pobs, lur, fresh>>
 
 Next ==
   \/ \E b \in 0..(cf.nbr - 1) : A_Suggest(b)
   \/ \E t \in Trials, v \in cf.vals, c \in cf.costs : A_Report(t, v, c)
-  \/ \E t \in Trials : cf.faults /\ EvError(t)
+  \/ \E t \in Trials : cf.faults /\ A_Error(t)
 =============================================================================
